@@ -68,13 +68,17 @@ def _reader_ops(ty):
 
 OPS = [
     {'op': 'prelude', 'text': '#[allow(unused_imports)] use vstd::prelude::*;\n'
-                              '#[allow(unused_imports)] use crate::verif_ext::*;\n'
+                              '#[allow(unused_imports)] use crate::verif_ext::*;\n#[allow(unused_imports)] use vstd::future::FutureAdditionalSpecFns;\n'
                               'verus! { broadcast use crate::verif_ext::group_ipp_seq; }'},
-    {'op': 'wrap', 'items': ['struct IppReader', 'impl IppReader']},
+    {'op': 'wrap', 'items': ['struct IppReader', 'impl IppReader', 'struct AsyncIppReader', 'impl AsyncIppReader']},
     {'op': 'append', 'text': """verus! {
 impl<R> IppReader<R> {
     /// bytes the underlying stream will still deliver (ghost)
     pub closed spec fn rest(&self) -> Seq<u8> { rd_rest(&self.inner) }
 }
+impl<R> AsyncIppReader<R> {
+    /// bytes the underlying stream will still deliver (ghost)
+    pub closed spec fn rest(&self) -> Seq<u8> { rd_rest(&self.inner) }
+}
 } // verus!"""},
-] + _reader_ops('IppReader')
+] + _reader_ops('IppReader') + _reader_ops('AsyncIppReader')
